@@ -110,6 +110,8 @@ Record param := {
   p_takes : list str;             (* script of the driver method write_<p>: pending start values of these parameters are
                                      taken over (popped from self.writeDict and written through their write_<q>), in
                                      this order, like frappy.rwhandler.CommonWriteHandler does *)
+  p_constant : option pyval;      (* the `constant` property: class level = the exported form Parameter.finish stored at
+                                     class creation; None = not set (Python None) *)
 }.
 
 Definition upd_param (p : param) (dt : option dtype) (unit : str) (descr : option str) (ro nc : bool) (ex : expo)
@@ -118,7 +120,13 @@ Definition upd_param (p : param) (dt : option dtype) (unit : str) (descr : optio
      p_dt := dt; p_unit := unit; p_dtdefault := p_dtdefault p; p_descr := descr; p_readonly := ro; p_needscfg := nc;
      p_export := ex; p_visibility := vis; p_group := grp; p_default := dflt; p_value := val;
      p_has_write := p_has_write p; p_wfunc := p_wfunc p; p_polled := p_polled p; p_uninit := uninit;
-     p_takes := p_takes p |}.
+     p_takes := p_takes p; p_constant := p_constant p |}.
+Definition set_constant (p : param) (x : option pyval) : param :=
+  {| p_name := p_name p; p_iscmd := p_iscmd p; p_optional := p_optional p; p_predef := p_predef p;
+     p_dt := p_dt p; p_unit := p_unit p; p_dtdefault := p_dtdefault p; p_descr := p_descr p; p_readonly := p_readonly p;
+     p_needscfg := p_needscfg p; p_export := p_export p; p_visibility := p_visibility p; p_group := p_group p;
+     p_default := p_default p; p_value := p_value p; p_has_write := p_has_write p; p_wfunc := p_wfunc p;
+     p_polled := p_polled p; p_uninit := p_uninit p; p_takes := p_takes p; p_constant := x |}.
 Definition set_dt p d u := upd_param p (Some d) u (p_descr p) (p_readonly p) (p_needscfg p) (p_export p)
   (p_visibility p) (p_group p) (p_default p) (p_value p) (p_uninit p).
 Definition set_descr p x := upd_param p (p_dt p) (p_unit p) (Some x) (p_readonly p) (p_needscfg p) (p_export p)
@@ -270,6 +278,7 @@ Definition param_setprop (p : param) (k : str) (v : pyval) : pres :=
   | Some t =>
       if str_eqb k k_value then PGo (set_value p (nn v))            (* ValueType: stored as given *)
       else if str_eqb k k_default then PGo (set_default p (nn v))
+      else if str_eqb k k_constant then PGo (set_constant p (nn v))  (* ValueType too; converted by Parameter.finish *)
       else
         match mp_validate t v with
         | Err _ => PCrash                                          (* BadValueError -> ProgrammingError *)
@@ -286,7 +295,7 @@ Definition param_setprop (p : param) (k : str) (v : pyval) : pres :=
               | PStr s => PGo (set_export p (XName s))
               | _ => PCrash
               end
-            else PCrash                                            (* constant, datatype, ...: not modelled *)
+            else PCrash                                            (* datatype, update_unchanged, influences: not modelled *)
         end
   | None =>
       match p_dt p with
@@ -449,13 +458,81 @@ Definition refit (d : option dtype) (v : option pyval) : option (option pyval) :
   | _, _ => Some v
   end.
 
+(* datatype.export_value(x) for a value x that datatype(...) returned (float: float(x), int: int(x), scaled:
+   int(round(x / scale)), bool, enum: int(member), string, blob: b64encode(x).decode('ascii'), array: list of the exported
+   elements, struct: dict of the exported members); None = the call raises / the value has not the shape datatype(...)
+   returns.  Tuples are not generated *)
+Definition b64_alphabet : list N :=
+  map (fun i => if i <? 26 then 65 + i else if i <? 52 then 97 + (i - 26) else if i <? 62 then 48 + (i - 52)
+                else if i =? 62 then 43 else 47)%N
+      (map N.of_nat (seq 0 64)).
+Definition b64c (i : N) : N := nth (N.to_nat i) b64_alphabet 61%N.
+Fixpoint b64enc (b : list N) : list N :=
+  match b with
+  | [] => []
+  | [x] => [b64c (x / 4); b64c ((x mod 4) * 16); 61; 61]%N
+  | [x; y] => [b64c (x / 4); b64c ((x mod 4) * 16 + y / 16); b64c ((y mod 16) * 4); 61]%N
+  | x :: y :: z :: r =>
+      (b64c (x / 4) :: b64c ((x mod 4) * 16 + y / 16) :: b64c ((y mod 16) * 4 + z / 64) :: b64c (z mod 64) :: b64enc r)%N
+  end.
+Fixpoint map_o {A B} (f : A -> option B) (l : list A) : option (list B) :=
+  match l with
+  | [] => Some []
+  | x :: r => match f x, map_o f r with Some y, Some ys => Some (y :: ys) | _, _ => None end
+  end.
+Fixpoint dt_exp (d : dtype) (x : pyval) {struct d} : option pyval :=
+  match d, x with
+  | TFloat _ _ _ _, PFloat f => Some (PFloat f)
+  | TInt _ _, PInt z => Some (PInt z)
+  | TScaled sc _ _, PFloat f => match py_round (fdiv f sc) with Ok k => Some (PInt k) | Err _ => None end
+  | TBool, PBool b => Some (PBool b)
+  | TEnum _, PEnum _ z => Some (PInt z)
+  | TString _ _ _, PStr s => Some (PStr s)
+  | TBlob _ _, PBytes b => Some (PStr (b64enc b))
+  | TArray e _ _, PTuple l | TArray e _ _, PList l => option_map PList (map_o (dt_exp e) l)
+  | TStruct ms _ _, PDict kv =>
+      option_map PDict
+        ((fix go (kv : list (str * pyval)) : option (list (str * pyval)) :=
+            match kv with
+            | [] => Some []
+            | (k, v) :: r =>
+                match (fix find (ms : list (str * dtype)) : option pyval :=
+                         match ms with
+                         | [] => None
+                         | (n, dm) :: ms' => if str_eqb k n then dt_exp dm v else find ms'
+                         end) ms, go r with
+                | Some j, Some r' => Some ((k, j) :: r')
+                | _, _ => None
+                end
+            end) kv)
+  | _, _ => None
+  end.
+
+(* Parameter.finish on the constant: `if self.constant is not None: constant = self.datatype(self.constant);
+   self.constant = self.datatype.export_value(constant); self.readonly = True` - NOT guarded: a constant that is no value
+   of the datatype raises here (the BadValueError collected before does not matter: the exception leaves __init__).
+   Outer None = raises.  Without a datatype (ValueType) the constant stays as it is *)
+Definition finish_constant (p : param) : option (option pyval * bool) :=
+  match p_constant p with
+  | None => Some (None, p_readonly p)
+  | Some c =>
+      match p_dt p with
+      | None => Some (Some c, true)
+      | Some d => match conv d c with
+                  | Ok x => match dt_exp d x with Some j => Some (Some j, true) | None => None end
+                  | Err _ => None
+                  end
+      end
+  end.
+
 Definition finish_param (p : param) : option param :=
   if p_iscmd p then Some p
   else
     let ex := match p_export p with XTrue => XName (export_name p) | x => x end in
-    match refit (p_dt p) (p_default p), refit (p_dt p) (p_value p) with
-    | Some d', Some v' => Some (set_dv (set_export p ex) d' v' (p_uninit p))
-    | _, _ => None
+    match finish_constant p, refit (p_dt p) (p_default p), refit (p_dt p) (p_value p) with
+    | Some (cst, ro), Some d', Some v' =>
+        Some (set_constant (set_readonly (set_dv (set_export p ex) d' v' (p_uninit p)) ro) cst)
+    | _, _, _ => None
     end.
 
 Fixpoint map_opt {A B} (f : A -> option B) (l : list A) : option (list B) :=
